@@ -268,9 +268,63 @@ fn eval_tree(ctx: &mut Ctx, rng: &mut Rng, s: &Shape) {
             }
         }
     }
+    // the same tree with every distinguishing mark removed (all leaves of a kind equal, all multiparts
+    // equal: a message with the same attachment twice), searched with predicates that pick one node by
+    // identity: a search that finds "the" part by comparing values reports a twin's specifier
+    if n <= 400 {
+        let mut next2 = 0u32;
+        let (mut t2, mut e2) = (vec![], vec![]);
+        let mut anon = build(s, &mut next2, &mut t2, &mut e2, &mut vec![]);
+        anonymise(&mut anon);
+        let mut nodes: Vec<(*const BodyStructure<'static>, Vec<u32>)> = vec![];
+        collect_nodes(&anon, &mut vec![], &mut nodes);
+        let parser2 = BodyStructParser::new(&anon);
+        for (ptr, want) in &nodes {
+            let target = *ptr;
+            let got = parser2.search(|b| std::ptr::eq(b as *const BodyStructure<'_> as *const u8, target as *const u8));
+            ctx.log.evaluations += 1;
+            if got.as_deref() != Some(&want[..]) {
+                ctx.fail(
+                    "wrong-specifier",
+                    format!(
+                        "in the tree {} with indistinguishable parts, the part {} selected by identity is reported as {:?}",
+                        toks.join(" "),
+                        show_path(want),
+                        got.as_ref().map(|p| show_path(p))
+                    ),
+                    &op,
+                );
+                break;
+            }
+        }
+        ctx.log.count("c17:identity-selected-twins");
+    }
     ctx.log.count(&format!("c17:nodes{}", std::cmp::min(n, 20)));
     ctx.log.nontrivial(&op);
     ctx.queue(op, parts.join(" "));
+}
+
+fn anonymise(b: &mut BodyStructure<'static>) {
+    match b {
+        BodyStructure::Basic { other, .. } | BodyStructure::Text { other, .. } | BodyStructure::Message { other, .. } => other.octets = 7,
+        BodyStructure::Multipart { common, bodies, .. } => {
+            common.ty.subtype = Cow::Borrowed("MIXED");
+            for c in bodies.iter_mut() {
+                anonymise(c);
+            }
+        }
+    }
+}
+
+fn collect_nodes(b: &BodyStructure<'static>, path: &mut Vec<u32>, out: &mut Vec<(*const BodyStructure<'static>, Vec<u32>)>) {
+    out.push((b as *const _, path.clone()));
+    if let BodyStructure::Multipart { bodies, .. } = b {
+        for (i, c) in bodies.iter().enumerate() {
+            path.push(i as u32 + 1);
+            collect_nodes(c, path, out);
+            path.pop();
+        }
+    }
 }
 
 fn all_shapes(depth: u32, max_children: usize) -> Vec<Shape> {
